@@ -11,6 +11,7 @@
  *   host                                   -> le=<rfbEndianTest>
  *   fmt server|client bpp depth be tc rmax gmax bmax rs gs bs   -> ok
  *   cmap is16 count <hex>                  -> ok     (server colour map; 3*count bytes or BE shorts)
+ *   recmap is16 count <hex>                -> ok     (palette change + rfbSetClientColourMaps)
  *   econ 0|1                               -> ok
  *   slack n                                -> ok     (n extra readable bytes after the source)
  *   set | setmsg                           -> reject | none fmt=.. | table=<bytes> fmt=.. [bgr233=<hex>]
@@ -101,10 +102,18 @@ int main(void) {
       if (!strcmp(tok[1], "server")) { scr->serverFormat = f; set_ok = 0; puts("ok"); }
       else if (!strcmp(tok[1], "client")) { cfmt = f; set_ok = 0; puts("ok"); }
       else puts("bad-op");
-    } else if (!strcmp(tok[0], "cmap") && n == 4) {
+    } else if ((!strcmp(tok[0], "cmap") || !strcmp(tok[0], "recmap")) && n == 4) {
+      /* cmap: the application installs a colour map (a later set/setmsg builds the table);
+         recmap: the application CHANGES the palette mid-session and calls rfbSetClientColourMaps,
+         as it must; the table of a client that has sent SetPixelFormat is rebuilt */
+      int re = tok[0][0] == 'r';
       int is16 = atoi(tok[1]); long cnt = atol(tok[2]); size_t hl = strlen(tok[3]);
       unsigned char *raw; long got, i;
       if ((is16 != 0 && is16 != 1) || cnt < 0 || cnt > 65536) { puts("bad-op"); goto next; }
+      if (re && (!have_conn || !conn.cl || !set_ok ||
+                 (!scr->serverFormat.trueColour && scr->serverFormat.bitsPerPixel > 16))) {
+        puts("bad-op"); goto next;
+      }
       raw = (unsigned char *)malloc(hl / 2 + 1);
       got = vh_unhex(tok[3], raw, hl / 2 + 1);
       if (got != cnt * 3 * (is16 ? 2 : 1)) { free(raw); puts("bad-op"); goto next; }
@@ -119,7 +128,10 @@ int main(void) {
         memcpy(cm8, raw, cnt * 3);
         scr->colourMap.data.bytes = cm8;
       }
-      free(raw); set_ok = 0; puts("ok");
+      free(raw);
+      if (re) { rfbSetClientColourMaps(scr, 0, 0); vh_drain(&conn); vh_buf_reset(&conn.out); }
+      else set_ok = 0;
+      puts("ok");
     } else if (!strcmp(tok[0], "econ") && n == 2) {
       rfbEconomicTranslate = atoi(tok[1]) ? TRUE : FALSE; set_ok = 0; puts("ok");
     } else if (!strcmp(tok[0], "slack") && n == 2) {
